@@ -31,3 +31,28 @@ func VerifLexer(lex interface{}) (nested, cancelled bool) {
 	}
 	return
 }
+
+// VerifPoints names the synchronisation points by number.
+var VerifPoints = [...]string{
+	verifSpawn:        "spawn",
+	verifStart:        "start",
+	verifTerminal:     "terminal",
+	verifPreRecv:      "pre-recv",
+	verifPostRecv:     "post-recv",
+	verifPreSend:      "pre-send",
+	verifPostSend:     "post-send",
+	verifBailout:      "bailout",
+	verifPreHeredoc:   "pre-heredoc",
+	verifPostHeredoc:  "post-heredoc",
+	verifPreJoin:      "pre-join",
+	verifPostJoin:     "post-join",
+	verifCancelClosed: "cancel-closed",
+	verifPreReturn:    "pre-return",
+	verifReturn:       "return",
+}
+
+// Decisions a hook may return at verifPreSend.
+const (
+	VerifForceSend = verifForceSend
+	VerifForceBail = verifForceBail
+)
